@@ -42,6 +42,7 @@ import (
 	"flag"
 	"fmt"
 	"log"
+	"math"
 	"strings"
 	"sync"
 	"time"
@@ -79,6 +80,12 @@ func (t timeResult) worstCaseDrift() time.Duration {
 		drift = -drift
 	}
 	drift += t.End.Sub(t.Start)
+	if drift < 0 {
+		// time.Time.Sub saturates at ±292 years, so that negating the
+		// difference or adding to it overflows: the clocks could hardly
+		// be further apart.
+		return time.Duration(math.MaxInt64)
+	}
 	return drift
 }
 
